@@ -126,6 +126,77 @@ def control_conditions(fa, def_blocks):
     return out
 
 
+def bool_table(fa, atom_of, natoms):
+    """Truth table of a bool-returning function over `natoms` named conditions. `atom_of(stmt)`
+    names the condition a statement computes: (index, negated) or None. The body is run once per
+    assignment of the conditions: constants, copies, `!`, `&`, `|`, `==`/`!=` on known bools
+    and switches on known locals are evaluated; anything else is unknown, and a switch on an
+    unknown forks. Returns {assignment tuple: set of returned values (0, 1, None = unknown)}."""
+    import itertools
+    table = {}
+    for asg in itertools.product((0, 1), repeat=natoms):
+        results = set()
+        seen = set()
+        work = [(0, ())]
+        while work and len(seen) < 4000:
+            b, env = work.pop()
+            if (b, env) in seen:
+                continue
+            seen.add((b, env))
+            envd = dict(env)
+
+            def val(op):
+                k = op_const(op)
+                if k is not None:
+                    return k.get("int") if k.get("ty") == "bool" else None
+                pl = op_place(op)
+                return envd.get(pl["l"]) if pl is not None and not pl["p"] else None
+            for s in fa.blocks[b]["stmts"]:
+                if "lhs" not in s or s["lhs"]["p"]:
+                    continue
+                rv = s["rv"]
+                v = None
+                a = atom_of(s)
+                if a is not None:
+                    v = asg[a[0]] ^ (1 if a[1] else 0)
+                elif rv["k"] == "use":
+                    v = val(rv["op"])
+                elif rv["k"] == "unop" and rv.get("op") == "Not":
+                    x = val(rv["a"])
+                    v = None if x is None else 1 - x
+                elif rv["k"] == "binop" and rv.get("op") in ("BitAnd", "BitOr", "Eq", "Ne", "BitXor"):
+                    x, y = val(rv["a"]), val(rv["b"])
+                    if x is not None and y is not None:
+                        v = {"BitAnd": x & y, "BitOr": x | y, "Eq": int(x == y), "Ne": int(x != y),
+                             "BitXor": x ^ y}[rv["op"]]
+                if v is None:
+                    envd.pop(s["lhs"]["l"], None)
+                else:
+                    envd[s["lhs"]["l"]] = v
+            t = fa.blocks[b]["term"]
+            nenv = tuple(sorted(envd.items()))
+            if t["k"] == "return":
+                results.add(envd.get(0))
+                continue
+            if t["k"] == "switch":
+                pl = op_place(t["op"])
+                if pl is not None and not pl["p"] and pl["l"] in envd:
+                    tg = t["otherwise"]
+                    for vv, x in zip(t["vals"], t["targets"]):
+                        if vv == envd[pl["l"]]:
+                            tg = x
+                    work.append((tg, nenv))
+                    continue
+            if t["k"] == "call" and isinstance(t.get("dest"), dict) and not t["dest"]["p"]:
+                envd.pop(t["dest"]["l"], None)
+                nenv = tuple(sorted(envd.items()))
+            for x in fa.succs(b):
+                if not fa.blocks[x].get("cleanup"):
+                    work.append((x, nenv))
+        table[asg] = results
+    return table
+
+
 def back_slice(fa, op, terminal):
     """Backward data slice of an operand over every definition (moves, casts, references,
     aggregates, binary operations, call arguments). `terminal(block, call_term)` may return a
